@@ -982,19 +982,9 @@ func ruleEmptyGuard(w *World, r *Report) {
 			r.add("EMPTYGUARD", fn, "?", Unresolved, "function not found")
 			continue
 		}
-		reach := simulate(f.Blocks[0], nil, lenIsZeroOracle(f, 0, true))
 		bad := ""
-		for _, ret := range returnsOf(f) {
-			if reach[ret.Block()] && !e.isFailureReturn(f, ret) {
-				bad = "a success return is reachable for an empty list (" + w.Pos(ret.Pos()) + ")"
-			}
-		}
-		for b := range reach {
-			for _, in := range b.Instrs {
-				if ia, ok := in.(*ssa.IndexAddr); ok && resolve(ia.X) == ssa.Value(f.Params[0]) {
-					bad = "element access " + shortInstr(ia) + " is reachable for an empty list (panic)"
-				}
-			}
+		if ok, why := e.check(f, scenario{Kind: scEmpty, Param: 0}, 0); !ok {
+			bad = why
 		}
 		if bad != "" {
 			r.add("EMPTYGUARD", fn, w.Pos(f.Pos()), Violated, bad)
@@ -1004,213 +994,81 @@ func ruleEmptyGuard(w *World, r *Report) {
 	}
 }
 
-// ruleSetOps: structural shape of Difference / Intersect / Include / Unique / Union.
+// ruleSetOps: Difference / Intersect / Include / Unique / Union compute the
+// set-expression term of the operation they are named after (setexpr.go).
 func ruleSetOps(w *World, r *Report) {
-	r.Rule("SETOP-SHAPE", "Unique and Union return exactly the key set of a map into which every element of every argument is inserted; Difference (Intersect) returns exactly the elements of its first (second) argument that miss (hit) a map holding every element of the other argument; Include answers true from inside a total scan and false after it; no loop over an argument has an early exit that skips elements")
-	d := distinctFor(w)
-	total := func(f *ssa.Function, sr *sliceRange) bool {
-		// no edge from the loop blocks to outside except header->done, and no return inside
-		blocks := sr.blocks()
-		for b := range blocks {
-			for _, s := range b.Succs {
-				if !blocks[s] && s != sr.Header {
-					return false
-				}
-			}
-			if _, ok := b.Instrs[len(b.Instrs)-1].(*ssa.Return); ok {
-				return false
-			}
-		}
-		return true
+	r.Rule("SETOP-SHAPE", "the set-expression term derived from the SSA form of each helper equals the definition of the operation it is named after: Unique = keys(set{P0}); Union = keys(set{P0,P1}); Difference = filter(P0, miss, set{P1}); Intersect = filter(Pa, hit, set{Pb}); Include = contains(P0, x1) -- built from total insertion loops, key-collection loops, membership-guarded appends and the slices/maps helpers, through module helpers; a loop over an argument with an early exit (elements skipped) is a violation")
+	e := &sxEngine{w: w, busy: map[string]bool{}}
+	want := map[string][]string{
+		"common.Unique":     {"keys(set{P0})"},
+		"common.Union":      {"keys(set{P0,P1})"},
+		"common.Difference": {"filter(P0,miss,set{P1})"},
+		"common.Intersect":  {"filter(P1,hit,set{P0})", "filter(P0,hit,set{P1})"},
+		"common.Include":    {"contains(P0,x1)"},
 	}
-	insertsAll := func(f *ssa.Function, p int) (*ssa.MakeMap, bool) {
-		sr := loopOverParam(f, p)
-		if sr == nil || !total(f, sr) {
-			return nil, false
-		}
-		var mm *ssa.MakeMap
-		ok, _ := everyIterationPassesInstr(sr, func(in ssa.Instruction) bool {
-			mu, ok := in.(*ssa.MapUpdate)
-			if !ok || !sr.isElem(resolve(mu.Key)) {
-				return false
-			}
-			if m, ok := resolve(mu.Map).(*ssa.MakeMap); ok {
-				mm = m
-				return true
-			}
-			return false
-		})
-		return mm, ok
-	}
-	for _, fn := range []string{"common.Unique", "common.Union"} {
+	for _, fn := range []string{"common.Unique", "common.Union", "common.Difference", "common.Intersect", "common.Include"} {
 		f := lookupByName(w, fn)
 		if f == nil {
 			r.add("SETOP-SHAPE", fn, "?", Unresolved, "function not found")
 			continue
 		}
-		ok := d.fnReturnsDistinct(f)
-		np := 1
-		if fn == "common.Union" {
-			np = 2
-		}
-		for p := 0; p < np; p++ {
-			if _, all := insertsAll(f, p); !all {
-				ok = false
+		pos := w.Pos(f.Pos())
+		env := map[*ssa.Parameter]string{}
+		for i, p := range f.Params {
+			if _, ok := p.Type().Underlying().(*types.Slice); ok {
+				env[p] = fmt.Sprintf("P%d", i)
 			}
 		}
-		if !ok && d.fnReturnsDistinct(f) {
-			// alternative: de-duplication of a list that holds every element of every argument
-			ok = true
-			for _, ret := range returnsOf(f) {
-				c, isCall := resolve(ret.Results[0]).(*ssa.Call)
-				if !isCall || len(c.Call.Args) != 1 || !d.fnReturnsDistinct(calleeOf(c)) {
-					ok = false
-					continue
-				}
-				for p := 0; p < np; p++ {
-					if !holdsAllOf(c.Call.Args[0], f.Params[p], 0) {
-						ok = false
-					}
+		// positive evidence first: a scan of an argument that can stop early
+		if fn != "common.Include" {
+			early := ""
+			for _, sr := range findSliceRanges(f) {
+				if _, isP := resolve(sr.X).(*ssa.Parameter); isP && !totalLoop(sr.blocks(), sr.Header) {
+					early = "the scan of " + describeValue(sr.X) + " is not a total loop (an early exit skips elements)"
 				}
 			}
-		}
-		if ok {
-			r.add("SETOP-SHAPE", fn, w.Pos(f.Pos()), Discharged, "every element of every argument is inserted; the result is the key set")
-		} else {
-			r.add("SETOP-SHAPE", fn, w.Pos(f.Pos()), Violated, "the result is not the key set of a map holding every element of every argument")
-		}
-	}
-	for _, it := range []struct {
-		fn        string
-		from, oth int
-		hit       bool
-	}{{"common.Difference", 0, 1, false}, {"common.Intersect", 1, 0, true}} {
-		f := lookupByName(w, it.fn)
-		if f == nil {
-			r.add("SETOP-SHAPE", it.fn, "?", Unresolved, "function not found")
-			continue
-		}
-		mm, all := insertsAll(f, it.oth)
-		sr := loopOverParam(f, it.from)
-		bad := ""
-		if !all || mm == nil {
-			bad = "not every element of the other argument is inserted into the membership map"
-		} else if sr == nil || !total(f, sr) {
-			bad = "the scan of the filtered argument is not a total loop (an early exit skips elements)"
-		} else {
-			// returned list: appends of the loop element, confined to hit/miss edge
-			for _, ret := range returnsOf(f) {
-				ai := appendChain(ret.Results[0])
-				if len(ai.Appends) != 1 {
-					bad = "the result is not built by a single append site"
-					continue
-				}
-				ap := ai.Appends[0]
-				elems, spread := appendedElems(ap)
-				if spread != nil || len(elems) != 1 || !sr.isElem(resolve(elems[0])) || !sr.blocks()[ap.Block()] {
-					bad = "an appended value is not the current element of the filtered argument"
-					continue
-				}
-				for _, b := range ai.Bases {
-					if !isEmptySliceBase(b) {
-						bad = "the result does not start from an empty list"
-					}
-				}
-				// membership test
-				okTest := false
-				var ifBlk, hitSucc, missSucc *ssa.BasicBlock
-				for _, blk := range f.Blocks {
-					t, fl, ifi := ifSuccs(blk)
-					if ifi == nil || !sr.blocks()[blk] {
-						continue
-					}
-					ex, ok := resolve(ifi.Cond).(*ssa.Extract)
-					if !ok || ex.Index != 1 {
-						continue
-					}
-					lk, ok := ex.Tuple.(*ssa.Lookup)
-					if !ok || resolve(lk.X) != ssa.Value(mm) || !sr.isElem(resolve(lk.Index)) {
-						continue
-					}
-					okTest = true
-					ifBlk, hitSucc, missSucc = blk, t, fl
-				}
-				if !okTest {
-					bad = "no membership test of the current element against the other argument's map"
-					continue
-				}
-				want, other := missSucc, hitSucc
-				if it.hit {
-					want, other = hitSucc, missSucc
-				}
-				if !(want == ap.Block() || blockDominatedByEdge(f, ifBlk, want, ap.Block())) {
-					bad = "the append is not confined to the " + map[bool]string{true: "hit", false: "miss"}[it.hit] + " branch of the membership test"
-					continue
-				}
-				// and every such iteration appends: from `want` the header is not reachable without the append
-				reach := simulate(want, map[*ssa.BasicBlock]bool{ap.Block(): true}, func(ssa.Value) (bool, bool) { return false, false })
-				if want != ap.Block() && reach[sr.Header] {
-					bad = "an element that passes the membership test can be skipped"
-				}
-				_ = other
-			}
-		}
-		if bad != "" {
-			r.add("SETOP-SHAPE", it.fn, w.Pos(f.Pos()), Violated, bad)
-		} else {
-			r.add("SETOP-SHAPE", it.fn, w.Pos(f.Pos()), Discharged, "filter of one argument by total membership in the other")
-		}
-	}
-	// Include
-	if f := lookupByName(w, "common.Include"); f != nil {
-		sr := loopOverParam(f, 0)
-		bad := ""
-		if sr == nil {
-			bad = "no scan of the slice"
-		} else {
-			nT, nF := 0, 0
-			for _, ret := range returnsOf(f) {
-				k, ok := resolve(ret.Results[0]).(*ssa.Const)
-				if !ok || k.Value == nil {
-					bad = "returns a computed value"
-					continue
-				}
-				inLoop := sr.blocks()[ret.Block()]
-				if k.Value.String() == "true" && inLoop {
-					// dominated by elem == target
-					okc := false
-					for _, blk := range f.Blocks {
-						t, _, ifi := ifSuccs(blk)
-						if ifi == nil {
-							continue
-						}
-						c, ok := ifi.Cond.(*ssa.BinOp)
-						if ok && c.Op == token.EQL && ((sr.isElem(resolve(c.X)) && resolve(c.Y) == ssa.Value(f.Params[1])) || (sr.isElem(resolve(c.Y)) && resolve(c.X) == ssa.Value(f.Params[1]))) && t == ret.Block() {
-							okc = true
-						}
-					}
-					if okc {
-						nT++
-					} else {
-						bad = "a true answer is not guarded by element == target"
-					}
-				} else if k.Value.String() == "false" && !inLoop {
-					nF++
-				} else {
-					bad = "unexpected constant answer placement"
+			for _, mr := range findMapRanges(f) {
+				if !totalLoop(mr.blocks(), mr.Header) {
+					early = "the collection of the map's keys is not a total loop (an early exit skips elements)"
 				}
 			}
-			if bad == "" && (nT == 0 || nF == 0) {
-				bad = "expected true inside the scan and false after it"
+			if early != "" {
+				r.add("SETOP-SHAPE", fn, pos, Violated, early)
+				continue
 			}
 		}
-		if bad != "" {
-			r.add("SETOP-SHAPE", "common.Include", w.Pos(f.Pos()), Violated, bad)
-		} else {
-			r.add("SETOP-SHAPE", "common.Include", w.Pos(f.Pos()), Discharged, "true iff some element equals the target; false after the total scan")
+		term := ""
+		n := 0
+		for _, ret := range returnsOf(f) {
+			n++
+			var t string
+			if fn == "common.Include" {
+				t = e.boolean(f, ret.Results[0], env, 0)
+			} else {
+				t = e.list(f, ret.Results[0], env, 0)
+			}
+			if n > 1 && t != term {
+				t = ""
+			}
+			term = t
 		}
-	} else {
-		r.add("SETOP-SHAPE", "common.Include", "?", Unresolved, "function not found")
+		if fn == "common.Include" && term == "" {
+			term = e.scanContains(f, env)
+		}
+		ok := false
+		for _, wnt := range want[fn] {
+			if term == wnt {
+				ok = true
+			}
+		}
+		switch {
+		case ok:
+			r.add("SETOP-SHAPE", fn, pos, Discharged, "computes "+term)
+		case term == "":
+			r.add("SETOP-SHAPE", fn, pos, Undecided, "no set-expression term could be derived for the result (unrecognised construction)")
+		default:
+			r.add("SETOP-SHAPE", fn, pos, Violated, "computes "+term+", the operation is defined as "+strings.Join(want[fn], " or "))
+		}
 	}
 }
 
